@@ -30,6 +30,15 @@ def gen_config(rng: random.Random, small=False) -> dict:
     mds = rng.choice([1200, 1200, 1280, 1350, 1452])
     opts["mds_client"] = mds
     opts["mds_server"] = rng.choice([mds, 1200, 1452])
+    # server front-end behaviour before a connection exists: Retry (address validation token) or Version Negotiation
+    r = random.Random("frontend/%r" % (rng.random(),)).random()
+    if r < 0.12:
+        opts["retry"] = True
+    elif r < 0.2:
+        opts["frontend_vn"] = True
+        opts["versions_client"] = ["v2", "v1"]
+        opts["versions_server"] = ["v1"]
+        opts.pop("original_version", None)
     return opts
 
 
@@ -127,6 +136,15 @@ def gen_scenario(seed, **kw) -> dict:
         allow_key_update=kw.get("allow_key_update", True),
         allow_stop=kw.get("allow_stop", True),
     )
+    r2 = random.Random("scenario-0rtt/%s" % seed)
+    if r2.random() < 0.15:
+        # session resumption: the client offers the ticket of an earlier (priming) connection and sends part of its
+        # data as 0-RTT before the handshake completes
+        opts["resume"] = {}
+        for o in script:
+            if o["side"] == "client" and o["op"] == "write" and r2.random() < 0.5:
+                o["t"] = r2.choice([0.0, 0.0, 0.002])
+        script.sort(key=lambda o: o["t"])
     return {"seed": seed, "opts": opts, "fates": fates, "script": script, "lateness": 0.0, "horizon": fates["adv_seconds"] + 150.0}
 
 
